@@ -83,7 +83,7 @@ def text_struct_law(ci: int, cj: int) -> bool:
         for nframes in range(1 if field in ('path', 'func', 'source') else 0, fmax + 1):
             for srcmask in range(2 ** nframes):
                 for fkind in range(3):
-                    for mclass in range(6):
+                    for mclass in range(8):
                         r = _text_core(field, free, nframes, srcmask, fkind, mclass, record=False)
                         if r is not True:
                             return r
@@ -100,7 +100,7 @@ def _text_core(field, s, nframes, srcmask, fkind, mclass, record=True):
               'source_line': ('x = call(%d)' % i) if srcmask & (1 << i) else ''}
         frames.append(fr)
     etype = 'pkg.MyError'
-    msg = ['', 'boom', 'key: value: more', 'first\nsecond line', 'one\n\nthree', 'one\n   \nthree: x'][mclass]
+    msg = ['', 'boom', 'key: value: more', 'first\nsecond line', 'one\n\nthree', 'one\n   \nthree: x', 'ends in blank ', 'first \nsecond\t'][mclass]
     # place the symbolic field (fields carry no leading/trailing blanks: surround with fixed characters)
     if field == 'path':
         frames[0]['filepath'] = '/d' + s + 'r/x.py'
@@ -165,6 +165,9 @@ def _plain(nxt):
     return nxt()
 
 
+def _oneline(nxt): return (lambda: nxt())()                    # noqa: E704 - two functions (_oneline, <lambda>) on ONE source line
+
+
 def _fin(nxt):
     # a frame that keeps running after the failing call: its current line moves on, the traceback's line does not
     try:
@@ -186,7 +189,7 @@ def _live_body(kinds, ti, mi):
     exc = etype(MESSAGES[mi]) if MESSAGES[mi] else etype()
     call = lambda: _raiser(exc)                                 # noqa: E731
     for k in reversed(kinds):
-        fn = [_plain, _lam, _nosrc, _generated, _evlam, _fin, _reraise][k]
+        fn = [_plain, _lam, _nosrc, _generated, _evlam, _fin, _reraise, _oneline][k]
         call = (lambda fn=fn, nxt=call: fn(nxt))
     try:
         call()
@@ -235,7 +238,7 @@ def live_law(depth: int, k0: int, k1: int, k2: int, k3: int, ti: int, mi: int) -
     post: _
     """
     depth = cz(depth, pinval('dmin', 1), pinval('dmax', 3))
-    kinds = [cz(k, 0, 6) for k in [k0, k1, k2, k3][:depth]]
+    kinds = [cz(k, 0, 7) for k in [k0, k1, k2, k3][:depth]]
     if pinval('k0') is not None:
         assume(kinds[0] == pinval('k0'))
     ti = cz(ti, 0, len(EXC_TYPES) - 1)
@@ -251,7 +254,7 @@ def obligations(tier):
     for fi in range(len(FIELDS)):
         obs.append(Ob('text_struct_law', timeout=T, pins={'field': fi, 'fmax': 2 if q else 3, 'lmax': 1 if q else 2}))
     obs.append(Ob('live_law', timeout=T, pins={'dmin': 1, 'dmax': 2}, need_kinds=('empty_message', 'message')))
-    for k0 in range(7):
+    for k0 in range(8):
         obs.append(Ob('live_law', timeout=T, pins={'dmin': 3, 'dmax': 3, 'k0': k0}, need_kinds=('empty_message', 'message')))
         if not q:
             obs.append(Ob('live_law', timeout=T, pins={'dmin': 4, 'dmax': 4, 'k0': k0}, need_kinds=('empty_message', 'message')))
